@@ -22,7 +22,8 @@
        initializers" is structural: a body that needed one would read an undefined name and be rejected here;
      - every node: its domain is imported by the model and, inside a function body, by that function; if
        (domain, op_type) names a model function there is exactly one such function and the call has equal
-       input/output arity; a node in a non-standard domain must name a model function. *)
+       input/output arity; a node in a non-standard domain must name a model function;
+     - function calls are not recursive (every chain of calls is shorter than the number of functions + 1). *)
 From Coq Require Import ZArith String List Bool Lia Arith.
 From J2O Require Import Onnx.
 Import ListNotations.
